@@ -1,0 +1,21 @@
+//go:build verif
+
+package otlp
+
+// C16 (what a protocol accepts is what gets stored, attributed to its own
+// resource): every span is stored with the service.name of the resource that
+// carries it, or with the empty string when that resource has none — never
+// with the name of another resource of the same request.
+// isServiceNameOf(s, r) is an uninterpreted relation, introduced where the
+// value of a "service.name" attribute of r is read (a definitional site
+// assumption); the loop invariant of the attribute scan and the assertion at
+// the call that serialises a span carry it.  Comment-only file.
+//@ func ProcessTraceIngest
+//@   props C16
+//@   site callret keyvalue.Value.GetStringValue #1:
+//@     assume uf("isServiceNameOf", bool, result, resourceSpans)
+//@   loop 2:
+//@     invariant [service-of-this-resource] service == "" || uf("isServiceNameOf", bool, service, resourceSpans)
+//@   site call spanToJson #1:
+//@     assert [span-carries-the-service-of-its-own-resource] arg1 == service && (service == "" || uf("isServiceNameOf", bool, service, resourceSpans))
+//@ end
